@@ -1,7 +1,8 @@
 """CLI tier of C16: the `sourmash compare` command line and the reload of what it saves (`sourmash plot`).
 
-usage: compare_cli.py <tmpdir> <seed> <n_runs> [labels]      (PYTHONPATH = package built from /repo)
+usage: compare_cli.py <tmpdir> <seed> <n_runs> [labels|many]      (PYTHONPATH = package built from /repo)
        `labels`: only small runs whose signature names have leading / trailing whitespace, tabs or a newline
+       `many`:   only runs with 10..14 signatures (two-digit sort_order in the --labels-to CSV), always reloaded through plot
 
 For every run: write signature files, run `python -m sourmash compare ... -o M --csv C --labels-to L [-p k]`
 on the files in a random order, reload the .npy matrix, the .labels.txt, the CSV and the labels CSV, and
@@ -28,7 +29,7 @@ from sourmash import MinHash, SourmashSignature, save_signatures, load_file_as_s
 U64 = 2 ** 64
 
 
-def make_sigs(rng, n, ksize, hard=0.0):
+def make_sigs(rng, n, ksize, hard=0.0, unnamed_first=False):
     scaleds = rng.choice([[1], [2], [10], [1, 2, 4], [10, 100]])
     top = max(scaleds)
     lo = int(U64 / top) - 1
@@ -47,6 +48,8 @@ def make_sigs(rng, n, ksize, hard=0.0):
         name = rng.choice(["", f"g{i}", f"genome {i} strain-{rng.randint(1, 99)}", f"s{i},with,commas", f'q"{i}"'])
         if rng.random() < hard:
             name = rng.choice([f" lead{i}", f"trail{i} ", f"tab{i}\t", f"  both{i}  ", f"two\nlines{i}"])
+        if unnamed_first and i == 0:
+            name = ""                       # an unnamed signature: its label is the filename, its `name` column is empty
         sigs.append(SourmashSignature(mh, name=name, filename=f"file{i}.fa"))
     return sigs
 
@@ -63,9 +66,11 @@ def pairwise(mode, ani, ia, a, b):
     return 0.0 if v is None else float(v)
 
 
-def expected(mode, ani, ia, sigs):
+def expected(mode, ani, ia, sigs, scaled_opt=None):
     n = len(sigs)
     top = max(s.minhash.scaled for s in sigs)
+    if scaled_opt:
+        top = max(top, scaled_opt)          # `--scaled S`: everything is compared at max(S, coarsest sketch)
     prepared = []
     for s in sigs:
         s = s.to_mutable() if hasattr(s, "to_mutable") else s
@@ -78,7 +83,7 @@ def expected(mode, ani, ia, sigs):
             if a != b:
                 # documented: C(A, B) = B.contained_by(A); symmetric measures: either order
                 M[a][b] = pairwise(mode, ani, ia, prepared[b], prepared[a])
-    return M
+    return M, prepared
 
 
 def plot_reload(td, tag, out, how, lab):
@@ -95,7 +100,7 @@ def plot_reload(td, tag, out, how, lab):
     return rows[0], [[float(x) for x in row] for row in rows[1:]]
 
 
-def run_cli(td, tag, files, ksize, mode, ani, ia, procs, dist, n_from_file=0):
+def run_cli(td, tag, files, ksize, mode, ani, ia, procs, dist, n_from_file=0, scaled_opt=None):
     out = os.path.join(td, f"{tag}.npy")
     cs = os.path.join(td, f"{tag}.csv")
     lab = os.path.join(td, f"{tag}.labels.csv")
@@ -109,6 +114,8 @@ def run_cli(td, tag, files, ksize, mode, ani, ia, procs, dist, n_from_file=0):
         cmd += ["-p", str(procs)]
     if dist:
         cmd.append("--distance-matrix")
+    if scaled_opt:
+        cmd += ["--scaled", str(scaled_opt)]
     # compare_parallel (-p N) leaves its memory-mapped arrays in the temp dir: keep them under <tmpdir>
     if n_from_file:
         # the last n_from_file files go through --from-file (the command appends them to the positional ones)
@@ -134,6 +141,7 @@ def run_cli(td, tag, files, ksize, mode, ani, ia, procs, dist, n_from_file=0):
 def main():
     td, seed, n_runs = sys.argv[1], int(sys.argv[2]), int(sys.argv[3])
     labels_only = len(sys.argv) > 4 and sys.argv[4] == "labels"
+    many_only = len(sys.argv) > 4 and sys.argv[4] == "many"       # 10..14 signatures (two-digit sort_order), reloaded through plot
     rng = random.Random(f"C16-cli-{seed}")
     rep = {"runs": 0, "cells": 0, "plot_reloads": 0, "violations": []}
 
@@ -141,9 +149,12 @@ def main():
         rep["violations"].append(dict(signature=sig, what=what, **kw))
 
     for run in range(n_runs):
-        n = rng.choice([1, 2, 3, 5, 8, 12]) if not labels_only else rng.choice([2, 3, 4])
+        n = rng.choice([1, 2, 3, 5, 8, 12, 14]) if not labels_only else rng.choice([2, 3, 4])
+        if many_only:
+            n = rng.randint(10, 14)
         ksize = rng.choice([21, 31])
-        sigs = make_sigs(rng, n, ksize, hard=0.7 if labels_only else (0.5 if rng.random() < 0.25 else 0.0))
+        sigs = make_sigs(rng, n, ksize, hard=0.7 if labels_only else (0.5 if rng.random() < 0.25 else 0.0),
+                         unnamed_first=labels_only or many_only or rng.random() < 0.5)
         files = []
         for i, s in enumerate(sigs):
             p = os.path.join(td, f"r{run}_{i}.sig")
@@ -155,13 +166,21 @@ def main():
         ia = mode == "sim" and rng.random() < 0.4
         procs = rng.choice([None, 1, 2, 3, 8, 16]) if mode == "sim" else None
         dist = rng.random() < 0.2
-        desc = f"mode={mode} ani={ani} ignore_abundance={ia} -p {procs} distance={dist} n={n} k={ksize}"
+        scaled_opt = rng.choice([None, None, None, 20, 200])
+        if labels_only or many_only:
+            # few runs: walk through the switches instead of drawing them
+            sched = [("sim", False, False, 2, True, None), ("containment", True, False, None, False, 20), ("avg", False, False, None, False, None),
+                     ("sim", True, True, 3, False, None), ("max", True, False, None, True, 200)]
+            mode, ani, ia, procs, dist, scaled_opt = sched[(run + seed + (2 if many_only else 0)) % len(sched)]
+            if labels_only and run == 0:
+                dist = True                 # every quick run saves at least one distance matrix
+        desc = f"mode={mode} ani={ani} ignore_abundance={ia} -p {procs} distance={dist} --scaled {scaled_opt} n={n} k={ksize}"
         order = list(range(n))
         rng.shuffle(order)
         results = []
         for tag, ordr in (("a", list(range(n))), ("b", order)):
             nff = rng.choice([0, 0, 1, n // 2, n]) if n > 0 else 0
-            res, err = run_cli(td, f"r{run}{tag}", [files[i] for i in ordr], ksize, mode, ani, ia, procs, dist, n_from_file=nff)
+            res, err = run_cli(td, f"r{run}{tag}", [files[i] for i in ordr], ksize, mode, ani, ia, procs, dist, n_from_file=nff, scaled_opt=scaled_opt)
             rep["runs"] += 1
             if res is not None and nff:
                 # `--from-file` goes through load_pathlist_from_file(), which returns a *set*: the listed files arrive in hash
@@ -179,7 +198,7 @@ def main():
                 ordr = actual
             loaded = [next(iter(load_file_as_signatures(files[i], ksize=ksize))) for i in ordr]
             try:
-                E = expected(mode, ani, ia, loaded)
+                E, prepared = expected(mode, ani, ia, loaded, scaled_opt)
             except Exception as e:      # noqa: BLE001
                 # a pairwise value does not exist (e.g. jaccard_to_distance refuses tiny sketches): the command must fail too
                 rep["pairwise_refused"] = rep.get("pairwise_refused", 0) + 1
@@ -201,7 +220,7 @@ def main():
             if labels != want_labels and not hard_labels:
                 bad("C16:cli:labels-txt", f"labels.txt does not hold the labels ({desc})", got=labels, want=want_labels)
             # reload through `sourmash plot`, from labels.txt and from the --labels-to CSV
-            if tag == "a" and n >= 2 and len(set(want_labels)) == n and (labels_only or hard_labels or rng.random() < 0.35):
+            if tag == "a" and n >= 2 and len(set(want_labels)) == n and (labels_only or many_only or hard_labels or n >= 10 or rng.random() < 0.35):
                 for how in ("txt", "csv"):
                     rl, rm = plot_reload(td, f"r{run}{tag}", out_npy, how, lab_csv)
                     rep["plot_reloads"] += 1
@@ -221,7 +240,7 @@ def main():
             if rows[0] != want_labels or [[float(x) for x in r] for r in rows[1:]] != E.tolist():
                 bad("C16:cli:csv", f"--csv does not reload to the same values ({desc})")
             if [r["label"] for r in lrows] != want_labels or [r["sort_order"] for r in lrows] != [str(i + 1) for i in range(n)] \
-                    or [r["md5"] for r in lrows] != [s.md5sum() for s in loaded]:
+                    or [r["md5"] for r in lrows] != [s.md5sum() for s in prepared]:      # md5 of the sketch as compared (after --scaled / downsampling)
                 bad("C16:cli:labels-to", f"--labels-to rows do not describe the inputs in order ({desc})")
             results.append((ordr, M))
         if len(results) == 2:
